@@ -81,6 +81,7 @@ type Enc struct {
 	siteInstrs       map[*Site][]ssa.Instruction
 	curSiteInstr     ssa.Instruction
 	compositeKeys    map[string][]compKey
+	arrViews         map[string]arrViewInfo
 }
 
 type Frame struct {
